@@ -28,6 +28,9 @@ import time
 VERIF = os.path.dirname(os.path.dirname(os.path.abspath(__file__)))
 REPO = os.environ.get("VERIF_REPO", "/repo")
 JOBS = int(os.environ.get("VERIF_JOBS", "14"))
+# evidence/ and replays/ normally live in /verif; experiments against scratch copies of the repository
+# (VERIF_REPO) redirect them so that they do not overwrite the evidence of the registered checks
+OUTDIR = os.environ.get("VERIF_OUT", VERIF)
 
 COMMON_DEFS = [
     "-DHAVE_CONFIG_H", "-D__NO_CTYPE", "-D_GNU_SOURCE", "-DLOCALEDIR=\"/x\"",
@@ -390,7 +393,7 @@ def run_property(prop_id, obligations, tier, level="model_checking", assumptions
         violations = []  # (ob, desc, replay_path)
         known_hits = []
         unconfirmed = []
-        replays_dir = os.path.join(VERIF, "replays")
+        replays_dir = os.path.join(OUTDIR, "replays")
         traces_validated = 0
         for r in results:
             if r.status != "violated":
@@ -489,8 +492,8 @@ def run_property(prop_id, obligations, tier, level="model_checking", assumptions
             cov.update(extra_coverage)
         ev = {"property_id": prop_id, "tier": tier, "seed": seed, "level": level, "coverage": cov,
               "assumptions": list(assumptions), "wall_s": round(wall, 2), "violations": len(violations)}
-        os.makedirs(os.path.join(VERIF, "evidence"), exist_ok=True)
-        with open(os.path.join(VERIF, "evidence", prop_id + ".json"), "w") as fp:
+        os.makedirs(os.path.join(OUTDIR, "evidence"), exist_ok=True)
+        with open(os.path.join(OUTDIR, "evidence", prop_id + ".json"), "w") as fp:
             json.dump(ev, fp, indent=1)
         print("%s %s: %d obligations, %d discharged, %d known-finding, %d vacuous, %d inconclusive, %d violated; %.1fs wall" % (
             prop_id, tier, n_ob, n_dis, n_known, n_vac, n_inc, n_vio, wall))
